@@ -1,4 +1,5 @@
 (* C05 runner.  Input, one case per line:
+     rchunk <hex>   ReadChunkHeader + ReadChunk on the bytes
      demux <hex bytes of the file | "-" for the empty input>      (model: DemuxModel.parse true = the current code)
    Output: "I <panic | err | ok F=... (canonical demuxer result, see riffio.ml)>" *)
 open Zutil
@@ -9,5 +10,15 @@ let () = iter_lines (fun line ->
   | ["demux"; hex] ->
     let bs = if hex = "-" then [] else zlist_of_hex hex in
     Printf.printf "I %s\n" (fmt_parse (DemuxModel.parse true bs))
+  | ["rchunk"; hex] ->
+    (* mux.ReadChunkHeader and mux.ReadChunk called directly *)
+    let bs = if hex = "-" then [] else zlist_of_hex hex in
+    let h = match DemuxModel.read_chunk_header bs with
+      | Res.Ok (id, sz) -> Printf.sprintf "ok %s %s" (zs id) (zs sz)
+      | Res.Err _ -> "err" | Res.Panic -> "panic" in
+    let c = match DemuxModel.read_chunk bs with
+      | Res.Ok (c, n) -> Printf.sprintf "ok %s %s %s %s" (zs c.DemuxModel.c_id) (zs c.DemuxModel.c_size) (fmt_bytes c.DemuxModel.c_data) (zs n)
+      | Res.Err _ -> "err" | Res.Panic -> "panic" in
+    Printf.printf "I H=%s C=%s\n" h c
   | [] -> ()
   | _ -> print_endline "ERR bad-line")
